@@ -98,6 +98,10 @@ def handle (line : String) : String :=
     match (do let t ← table; let n ← tree; pure (t, n) : P _).run rest with
     | some ((t, n), []) => "ok " ++ Wire.enc (printNode (rawRoot t n))
     | _ => "err bad-arg"
+  | "renderpart" :: rest =>
+    match (do let t ← table; let n ← tree; pure (t, n) : P _).run rest with
+    | some ((t, .elem q attrs kids), []) => "ok " ++ Wire.enc (renderPart t q attrs kids)
+    | _ => "err bad-arg"
   | "render" :: rest =>
     match (do let t ← table; let n ← tree; pure (t, n) : P _).run rest with
     | some ((t, n), []) => "ok " ++ Wire.enc (render t n)
